@@ -783,7 +783,10 @@ const UTF8_SEQS: &[&[u8]] = &[
 pub fn run_c17(tier: &str, seed: u64, out: &mut Out) {
     let mut r = Rng::new(seed);
     let all = Ro::all();
-    let contexts: Vec<(&str, &str)> = vec![("", ""), ("a", "b"), ("\"", "\""), ("\"x", "y\""), ("#\\", ""), ("?", ""), ("\"\\", "\""), (";", "\n1"), ("(a ", ")"), ("\"\\x41;", "\""), ("\"\\101", "\""), ("\"\\u00e9", "\""), ("#:", ""), (":", ""), ("+", ""), ("(. ", ")"), ("?\\", ""), ("\"\\N{U+41}", "\"")];
+    let contexts: Vec<(&str, &str)> = vec![("", ""), ("a", "b"), ("\"", "\""), ("\"x", "y\""), ("#\\", ""), ("?", ""), ("\"\\", "\""), (";", "\n1"), ("(a ", ")"), ("\"\\x41;", "\""), ("\"\\101", "\""), ("\"\\u00e9", "\""), ("#:", ""), (":", ""), ("+", ""), ("(. ", ")"), ("?\\", ""), ("\"\\N{U+41}", "\""),
+        // after a backslash and blanks / a line ending inside a string (line continuations, Emacs "\ ")
+        ("\"a\\\n", "b\""), ("\"a\\\n   ", "\""), ("\"\\ \t\n \t", "z\""), ("\"\\\r\n", "\""), ("\"\\\r", "\""), ("\"\\\n\u{a0}", "\""), ("\"\\ ", "\""), ("\"\\\t", "\""),
+        ("\"\\\n\u{a0} ", " \""), ("\"x\\  \n\t", "\"")];
     let mut seqs: Vec<Vec<u8>> = UTF8_SEQS.iter().map(|s| s.to_vec()).collect();
     // every 2-byte sequence with a lead in c0..ff and continuation classes; every 1-byte
     for a in 0x80..=0xffu32 { seqs.push(vec![a as u8]); for b in [0x00u8, 0x41, 0x7f, 0x80, 0xa0, 0xbf, 0xc0, 0xff] { seqs.push(vec![a as u8, b]); } }
